@@ -203,6 +203,9 @@ func cmdCheck(args []string) int {
 		seenFn[f] = true
 		fi, ok := pr.Funcs[f]
 		if !ok {
+			fi, ok = pr.LitFuncs[f]
+		}
+		if !ok {
 			items = append(items, &checkItem{Name: f + "/exists", Kind: "missing", Text: "function under contract no longer exists", Status: "missing", Func: f})
 			continue
 		}
@@ -268,9 +271,9 @@ func cmdCheck(args []string) int {
 	}
 	obls = append(obls, mc.obls...)
 	// solve
-	cfg := &SolverCfg{Timeout: 10 * time.Second, WorkDir: workDir(), Seed: seed}
+	cfg := &SolverCfg{Timeout: 20 * time.Second, WorkDir: workDir(), Seed: seed}
 	if *tier == "thorough" {
-		cfg.Timeout = 60 * time.Second
+		cfg.Timeout = 120 * time.Second
 		cfg.Agree = true
 	}
 	par := runtime.NumCPU() / 2
